@@ -377,7 +377,7 @@ def run_pairs(rep, tier):
         open(ws.root + "/lib/lib.go", "w").write(LIB.replace('import "fmt"', 'import (\n\t"fmt"\n\n\t"github.com/google/wire"\n)')
                                                  + "\nvar Default = \"from lib\"\n\nvar SetDefault = wire.NewSet(wire.Value(Default))\n")
         open(ws.root + "/lib2/lib2.go", "w").write("package lib2\n\nimport \"github.com/google/wire\"\n\nvar Num = 77\n\nvar Default = \"from lib2\"\n\n"
-                                                   "var SetDefault = wire.NewSet(wire.Value(Default))\n")
+                                                   "var SetDefault = wire.NewSet(wire.Value(Default))\n\nvar SetNum = wire.NewSet(wire.Value(Num + 1))\n")
         inj, home, calls = [], [], []
         for gi, (typ, exprs) in enumerate(PAIRS):
             for ei, e in enumerate(exprs):
@@ -390,6 +390,16 @@ def run_pairs(rep, tier):
         inj.append("func VS_1() string {\n\tpanic(wire.Build(lib2.SetDefault))\n}\n")
         home += ["var HomeVS_0 = lib.Default", "var HomeVS_1 = lib2.Default"]
         calls += [("VS_0", "Default (package lib)"), ("VS_1", "Default (package lib2)")]
+        # several values written in different packages meet in one injector; the injector's package has identifiers of the same
+        # names (a value copied without its qualifier would silently denote them)
+        for k, (order, build) in enumerate([("a string, b int, c Label", 'lib.SetDefault, lib2.SetNum, wire.Value(Label("x"))'),
+                                            ("c Label, b int, a string", 'wire.Value(Label("x")), lib2.SetNum, lib.SetDefault'),
+                                            ("b int, c Label, a string", 'lib2.SetNum, lib.SetDefault, wire.Value(Label(Default))')]):
+            home.append("func NewMix%d(%s) Mix { return Mix{A: a, B: b, C: c} }" % (k, order))
+            inj.append("func VM_%d() Mix {\n\tpanic(wire.Build(%s, NewMix%d))\n}\n" % (k, build, k))
+            home.append("var HomeVM_%d = Mix{A: lib.Default, B: lib2.Num + 1, C: %s}" % (k, 'Label(Default)' if "Label(Default)" in build else 'Label("x")'))
+            calls.append(("VM_%d" % k, "values of lib, lib2 and the injector's package in one injector: " + build))
+        home += ["type Label string", "type Mix struct {\n\tA string\n\tB int\n\tC Label\n}", 'var Default = "decoy of package pairs"', "var Num = -1"]
         imports = 'import (\n\t"github.com/google/wire"\n\t"%s/lib"\n\t"%s/lib2"\n)\n' % (MOD, MOD)
         open(ws.root + "/pairs/wire.go", "w").write("//go:build wireinject\n// +build wireinject\n\npackage pairs\n\n" + imports + "\n" + "\n".join(inj))
         open(ws.root + "/pairs/home.go", "w").write("package pairs\n\nimport (\n\t\"%s/lib\"\n\t\"%s/lib2\"\n)\n\n" % (MOD, MOD) + "\n".join(home) + "\n")
